@@ -27,7 +27,9 @@ LEAF = {1: 'def make() -> int:\n\treturn 1\n', 2: "def make() -> str:\n\treturn 
 STEM = {'a': 'n10', 'b': 'n1', 'c': 'n', 'd': 'n100'}
 UNSTEM = {v: k for k, v in STEM.items()}
 # the twins graph: three files with ONE base name in different packages (vm/n.py imports vm/p/n.py and vm/q/n.py)
-GRAPH_STEM = {'Twins': {'a': 'n', 'b': 'p.n', 'c': 'q.n'}}
+# the chain graph: every dotted path is a substring of the one listed before it, and the first one also ENDS with the second
+# (vm.p.vm.n1 / vm.n1 / vm.n): nothing may select a module by a partial match of its path, from either end
+GRAPH_STEM = {'Twins': {'a': 'n', 'b': 'p.n', 'c': 'q.n'}, 'Chain': {'a': 'p.vm.n1', 'b': 'n1', 'c': 'n'}}
 
 
 def stem_of(graph: str, m: str) -> str:
